@@ -7,6 +7,6 @@ mkdir -p "$D/repo" && cp -r /repo/src "$D/repo/src"
 ( cd "$D/repo" && patch -p1 -s < "$PATCH" ) || { echo "PATCH FAILED"; exit 9; }
 cd /verif
 for P in "$@"; do
-  VERIF_REPO_SRC="$D/repo/src" ./check $P > "$D/out.$P" 2>&1; rc=$?
+  VERIF_OUT="$D/out" VERIF_REPO_SRC="$D/repo/src" ./check $P > "$D/out.$P" 2>&1; rc=$?
   echo "[$P exit=$rc] $(grep -E '^VIOLATION|obligation:|untranslatable' "$D/out.$P" | head -4 | tr '\n' ' ' | cut -c1-400)"
 done
